@@ -73,14 +73,24 @@ RULE = ('histories generated from VERIF_SEED by go/harness (profile %s): create 
         'a history is non-trivial when %s; distinct = distinct (configuration, op-kind sequence) pairs')
 
 PROPS = {
-    'C01': P('C01', 320, 6400, RULE % ('C01', 'it has >= 1 accepted write, >= 1 delete and >= 1 read')),
-    'C02': P('C02', 320, 6400, RULE % ('C02', 'it evaluates >= 1 search with a non-empty result on a collection of >= 2 objects')),
-    'C03': P('C03', 320, 6400, RULE % ('C03', 'it has >= 1 write rejected for uniqueness and >= 1 accepted write after it')),
-    'C07': P('C07', 320, 6400, RULE % ('C07', 'it has >= 1 rejected batch and >= 1 accepted batch of >= 2 objects')),
-    'C13': P('C13', 320, 6400, RULE % ('C13', 'it collects >= 1 ordered result of >= 2 objects')),
-    'C15': P('C15', 320, 6400, RULE % ('C15', 'it has >= 1 write rejected as invalid and >= 1 transformed accepted write')),
-    'C16': P('C16', 320, 6400, RULE % ('C16', 'it stores >= 1 string under an upper/lower constraint and searches that field')),
-    'C20': P('C20', 320, 6400, RULE % ('C20', 'it collects >= 1 search evaluated before an intervening write')),
+    'C01': P('C01', 1600, 16000, RULE % ('C01', 'it has >= 1 accepted write, >= 1 delete and >= 1 read')),
+    'C02': P('C02', 1600, 16000, RULE % ('C02', 'it evaluates >= 1 search with a non-empty result on a collection of >= 2 objects')),
+    'C03': P('C03', 1600, 16000, RULE % ('C03', 'it has >= 1 write rejected for uniqueness and >= 1 accepted write after it')),
+    'C04': P('C04', 1600, 16000, RULE % ('C04', 'it reopens the directory after >= 1 accepted write and observes it again')),
+    'C05': P('C05', 1600, 16000, RULE % ('C05', 'it crashes one mutating call at one of its file-system mutations, reopens, controls, repairs and sweeps (every history has exactly one crash)')),
+    'C06': P('C06', 1600, 16000, RULE % ('C06', 'it has >= 1 write call returning an error (logical rejection or injected storage fault) observed by a sweep before and after')),
+    'C07': P('C07', 1600, 16000, RULE % ('C07', 'it has >= 1 rejected batch and >= 1 accepted batch of >= 2 objects')),
+    'C10': P('C10', 1600, 16000, RULE % ('C10', 'it runs in async mode under the virtual clock with >= 1 accepted write')),
+    'C11': P('C11', 1600, 16000, RULE % ('C11', 'it applies >= 1 Control or Repair after file / index faults')),
+    'C12': P('C12', 400, 4000, RULE % ('C12', 'it has >= 1 accepted write and >= 1 read'), extra=[]),
+    'C13': P('C13', 1600, 16000, RULE % ('C13', 'it collects >= 1 ordered result of >= 2 objects or an AssignIndex of >= 2 values')),
+    'C15': P('C15', 1600, 16000, RULE % ('C15', 'it has >= 1 write rejected as invalid and >= 1 transformed accepted write')),
+    'C16': P('C16', 1600, 16000, RULE % ('C16', 'it stores >= 1 string under an upper/lower constraint and searches that field')),
+    'C17': P('C17', 800, 8000, RULE % ('C17', 'it calls Create >= 2 times (settings switch, refused re-creation) or opens the directory through a changed struct')),
+    'C18': P('C18', 1600, 16000, RULE % ('C18', 'it lists and decodes the directory after >= 1 accepted write')),
+    'C20': P('C20', 1600, 16000, RULE % ('C20', 'it collects >= 1 search evaluated before an intervening write')),
+    'C08': P('C02', 160, 1600, RULE % ('C02', 'static obligation + race runs; sequential histories only validate the model'), static_only=True, race=True),
+    'C09': P('C02', 160, 1600, RULE % ('C02', 'static obligation; sequential histories only validate the model'), static_only=True),
 }
 
 
@@ -114,6 +124,138 @@ def nontrivial(pid, corr, extra):
     return corr.get('nontrivial', 0) + extra.get('nontrivial', 0)
 
 
+def _sh(cmd, timeout=3000, env=None):
+    return subprocess.run(cmd, shell=isinstance(cmd, str), stdout=subprocess.PIPE, stderr=subprocess.STDOUT, text=True,
+                          timeout=timeout, env=env)
+
+
+def lock_engine(pid, tier, seed, exe, workdir, V):
+    """C08 / C09 static half: regenerate the lock skeleton from /repo's working tree (go/extract),
+    recompile Gen/Skeleton.v and Lock/SodCheck.v, read the vm_compute verdicts."""
+    res = {'obligations': 1, 'discharged': 0, 'oracle_failures': [], 'samples': [], 'evaluations': 0, 'nontrivial': 0}
+    wd = os.path.join(workdir, 'lock')
+    r = _sh(['sh', os.path.join(V, 'go', 'extract', 'run.sh'), '/repo', wd], timeout=1800,
+            env=dict(os.environ, GOFLAGS='-mod=mod', GOPROXY='off', GOSUMDB='off', GOTOOLCHAIN='local'))
+    out = r.stdout
+    res['summary'] = out[-3000:]
+    if r.returncode != 0:
+        res['broken'] = 'lock skeleton extraction failed closed or did not compile (exit %d): %s' % (r.returncode, out[-1500:])
+        return res
+    key = 'C09_lock_order_ok' if pid == 'C09' else 'C08_lockset_ok'
+    m = re.search(r'\("%s", (true|false)\)' % key, out)
+    ok = bool(m) and m.group(1) == 'true'
+    closed = 'assumptions: closed under the global context' in out
+    mf = re.search(r'extractor: (\d+) functions, (\d+) entry points', out)
+    if mf:
+        res['evaluations'] = int(mf.group(1))
+        res['nontrivial'] = int(mf.group(2))
+    res['samples'] = [{'verdict_lines': [l for l in out.splitlines() if l.startswith('("')][:10]}]
+    if ok and closed:
+        res['discharged'] = 1
+    else:
+        tag = 'C09 violation:' if pid == 'C09' else 'C08 violation:'
+        sigs = [l for l in out.splitlines() if l.startswith(tag)]
+        for sline in sigs:
+            res['oracle_failures'].append({'line': '! %s %s' % (pid, sline), 'replay': [sline], 'hist': 'static lock skeleton'})
+        if not sigs:
+            res['broken'] = 'obligation %s = true does not hold on the generated skeleton: %s' % (key, out[-1500:])
+    return res
+
+
+def race_engine(pid, tier, seed, exe, workdir, V):
+    """C08 dynamic half: concurrent workloads under the race detector (hz-race -conc)."""
+    res = lock_engine(pid, tier, seed, exe, workdir, V)
+    race = os.path.join(os.path.dirname(exe), 'hz-race')
+    if not os.path.exists(race):
+        return res
+    n = 6 if tier == 'quick' else 60
+    out = os.path.join(workdir, 'conc.txt')
+    r = _sh([race, '-conc', '-seed', str(seed), '-n', str(n), '-out', out], timeout=3000,
+            env=dict(os.environ, GORACE='halt_on_error=0 exitcode=0'))
+    txt = (open(out).read() if os.path.exists(out) else '') + r.stdout
+    res['obligations'] += 0
+    races = len(re.findall(r'WARNING: DATA RACE', txt))
+    res['summary'] = res.get('summary', '') + '\nrace runs: %d workloads, %d race reports' % (n, races)
+    res['evaluations'] += n
+    for mm in re.finditer(r'^! C08 (.*)$', txt, re.M):
+        res['oracle_failures'].append({'line': '! C08 ' + mm.group(1), 'replay': [], 'hist': 'concurrent workload'})
+    if races:
+        first = txt[txt.index('WARNING: DATA RACE'):][:1800]
+        res['oracle_failures'].append({'line': '! C08 race detector report', 'replay': first.splitlines(), 'hist': 'concurrent workload'})
+    return res
+
+
+def pair_engine(pid, tier, seed, exe, workdir, V):
+    """C12: every history replayed under a pair of configurations, observations compared (model-free)."""
+    import concurrent.futures
+    n = 40 if tier == 'quick' else 400
+    res = {'oracle_failures': [], 'evaluations': 0, 'nontrivial': 0, 'samples': []}
+
+    def one(i):
+        out = os.path.join(workdir, 'pair_%d.txt' % i)
+        _sh([exe, '-prop', 'C12', '-pair', '-seed', str(seed), '-first', str(i * n), '-n', str(n), '-out', out], timeout=3000)
+        return open(out).read() if os.path.exists(out) else ''
+    with concurrent.futures.ThreadPoolExecutor(max_workers=16) as ex:
+        for txt in ex.map(one, range(16)):
+            lines = txt.splitlines()
+            for k, l in enumerate(lines):
+                if l.startswith('! C12'):
+                    rep = lines[k + 1][7:].split(' ;; ') if k + 1 < len(lines) and lines[k + 1].startswith('replay ') else []
+                    hdr = [x[2:] for x in lines[max(0, k - 3):k] if x.startswith(('a ', 'b '))]
+                    res['oracle_failures'].append({'line': l, 'replay': hdr + rep, 'hist': 'pair'})
+                if l.startswith('endpair'):
+                    res['evaluations'] += 1
+                    mm = re.search(r'ops=(\d+) diffs=0', l)
+                    if mm and int(mm.group(1)) > 20:
+                        res['nontrivial'] += 1
+                if l.startswith('a cfg') and len(res['samples']) < 2:
+                    res['samples'].append({'pair': lines[k:k + 2]})
+    res['summary'] = '%d configuration pairs replayed' % res['evaluations']
+    return res
+
+
+def golden_engine(pid, tier, seed, exe, workdir, V):
+    """C18: golden corpus written by the pinned release + camelToSnake differential."""
+    res = {'oracle_failures': [], 'evaluations': 0, 'nontrivial': 0, 'samples': [], 'obligations': 0, 'discharged': 0}
+    drv = os.path.join(V, 'ocaml', 'driver')
+    t, m = os.path.join(workdir, 'golden_t.txt'), os.path.join(workdir, 'golden_m.txt')
+    _sh([exe, '-golden', os.path.join(V, 'golden'), '-seed', str(seed), '-out', t], timeout=3000)
+    with open(m, 'w') as f:
+        subprocess.run([drv, t], stdout=f, timeout=3000)
+    r = _sh([sys.executable, os.path.join(V, 'lib', 'compare.py'), t, m])
+    try:
+        c = json.loads(r.stdout)
+    except Exception:
+        res['broken'] = 'golden corpus comparison failed: ' + r.stdout[-500:]
+        return res
+    res['evaluations'] += c['ops']
+    res['nontrivial'] += c['histories']
+    for mm in c['mismatches']:
+        mm['golden'] = True
+        res.setdefault('mismatches', []).append(mm)
+    for of in c['oracle_failures']:
+        res['oracle_failures'].append(of)
+    if c['mismatches']:
+        res['broken'] = 'golden directory written by the pinned release: model and current tree disagree: %s' % json.dumps(c['mismatches'][0])[:1500]
+    # camelToSnake: implementation vs Gallina on every string over a small alphabet
+    sn, si, sm = [os.path.join(workdir, x) for x in ('snake.txt', 'snake_in.txt', 'snake_m.txt')]
+    _sh([exe, '-snake', '-out', sn])
+    if os.path.exists(sn):
+        lines = open(sn).read().split('\n')
+        open(si, 'w').write('\n'.join(l.split(' ')[0] for l in lines if l) + '\n')
+        with open(sm, 'w') as f:
+            subprocess.run([drv, '-snake', si], stdout=f, timeout=600)
+        a = [l for l in lines if l]
+        b = [l for l in open(sm).read().split('\n') if l]
+        res['evaluations'] += len(a)
+        bad = [(x, y) for x, y in zip(a, b) if x.split() != y.split()]
+        if bad or len(a) != len(b):
+            res['oracle_failures'].append({'line': '! C18 camelToSnake differs from the model: impl %r model %r' % (bad[:1] or len(a), len(b)),
+                                           'replay': [str(bad[:3])], 'hist': 'snake'})
+    res['summary'] = 'golden directories: %d, ops %d; snake strings compared' % (c['histories'], c['ops'])
+    return res
+
+
 def run_extra(pid, tier, seed, exe, workdir, V):
     mod = EXTRA.get(pid)
     if mod is None:
@@ -121,4 +263,4 @@ def run_extra(pid, tier, seed, exe, workdir, V):
     return mod(pid, tier, seed, exe, workdir, V)
 
 
-EXTRA = {}
+EXTRA = {'C09': lock_engine, 'C08': race_engine, 'C12': pair_engine, 'C18': golden_engine}
